@@ -16,6 +16,9 @@ inductive GoErr where
 structure Cfg where
   /-- `withCallbackURI` uses the checked form of `err.(oauth.OAuth2Error)` -/
   assertChecked : Bool
+  /-- `handleAuthorizeResponseSubmission` rejects an envelope without presentations (`len(pexEnvelope.Presentations) == 0`;
+      pe.ParseEnvelope("[]") succeeds with none) -/
+  envelopeGuard : Bool := true
   deriving Repr, DecidableEq
 
 /-- `withCallbackURI(err, uri)`: `oauthErr := err.(oauth.OAuth2Error)` -/
@@ -41,13 +44,19 @@ structure Pres where
 /-- `extractChallenge`: error only when the LD proof does not parse -/
 def extractChallengeErr (p : Pres) : Bool := p.format == .jsonld && !p.ldProofOk
 
-/-- `validatePresentationNonce`: any extraction error, missing or differing nonce gives an OAuth2Error;
-    `storeOk` = the nonce is known and belongs to the state (otherwise OAuth2Error as well). -/
-def validatePresentationNonce (ps : List Pres) (storeOk : Bool) : Option GoErr :=
-  if ps.any extractChallengeErr then some (.oauth2 "invalid_request") else
-  if ps.any (fun p => p.nonce == "") then some (.oauth2 "invalid_request") else
-  if (ps.map (·.nonce)).eraseDups.length > 1 then some (.oauth2 "invalid_request") else
-  if !storeOk then some (.oauth2 "invalid_request") else none
+/-- the distinct non-empty nonces, in order of first appearance (`nonces` of validatePresentationNonce) -/
+def noncesOf (ps : List Pres) : List String := ((ps.map (·.nonce)).filter (· != "")).eraseDups
+
+/-- `validatePresentationNonce`: any extraction error, missing or differing nonce gives an OAuth2Error; then `nonces[0]` is
+    looked up in the nonce store (`storeOk` = it is known and belongs to the state, otherwise OAuth2Error as well).
+    With NO presentation at all the loop collects no error and `nonces[0]` indexes an empty slice. -/
+def validatePresentationNonce (ps : List Pres) (storeOk : Bool) : Res (Option GoErr) :=
+  if ps.any extractChallengeErr then .ok (some (.oauth2 "invalid_request")) else
+  if ps.any (fun p => p.nonce == "") then .ok (some (.oauth2 "invalid_request")) else
+  if (noncesOf ps).length > 1 then .ok (some (.oauth2 "invalid_request")) else
+  match noncesOf ps with
+  | [] => .panic "validatePresentationNonce:nonces[0]"
+  | _ :: _ => if !storeOk then .ok (some (.oauth2 "invalid_request")) else .ok none
 
 /-- `validatePresentationAudience`: returns the RAW ParseLDProof error for a JSON-LD VP whose proof does not parse -/
 def validatePresentationAudience (p : Pres) : Option GoErr :=
@@ -71,13 +80,18 @@ def audienceLoop (c : Cfg) : List (Pres × Bool) → Res (Option GoErr)
 
 /-- the part of `handleAuthorizeResponseSubmission` between session lookup and signature verification -/
 def handleSubmission (c : Cfg) (ps : List (Pres × Bool)) (storeOk : Bool) : Res (Option GoErr) :=
+  -- `if err != nil || len(pexEnvelope.Presentations) == 0 { return oauthError(InvalidRequest, "invalid vp_token") }`
+  if c.envelopeGuard && ps.isEmpty then .ok (some (.oauth2 "invalid_request")) else
   match validatePresentationNonce (ps.map (·.1)) storeOk with
-  | some e =>
+  | .panic s => .panic s
+  | .err x => .err x
+  | .ok (some e) =>
     match withCallbackURI c e with
     | .ok e' => .ok (some e') | .err x => .err x | .panic s => .panic s
-  | none => audienceLoop c ps
+  | .ok none => audienceLoop c ps
 
 def sites : List (String × String) :=
-  [ ("assert:withCallbackURI:err.(oauth.OAuth2Error)", "withCallbackURI:err.(oauth.OAuth2Error)") ]
+  [ ("assert:withCallbackURI:err.(oauth.OAuth2Error)", "withCallbackURI:err.(oauth.OAuth2Error)"),
+    ("index:validatePresentationNonce:nonces[0]", "validatePresentationNonce:nonces[0]") ]
 
 end Nuts.C19.Callback
